@@ -108,6 +108,15 @@ func edSubseq(need, have []string) bool {
 	return j == len(need)
 }
 
+func edInText(coms []string, text []byte) bool {
+	for _, c := range coms {
+		if !strings.Contains(string(text), c) {
+			return false
+		}
+	}
+	return true
+}
+
 func edEqStrs(a, b []string) bool {
 	if len(a) != len(b) {
 		return false
@@ -145,7 +154,11 @@ func edCheckC08(work bool, file string, ops []edOp) (sig, info string) {
 	names = append(names, edKindName[:]...)
 	for i := range want {
 		if want[i] != got[i] {
-			return "c08-directives:" + names[i], "predicted " + want[i] + " reparsed " + got[i]
+			name := names[i]
+			if name == "retract" {
+				name = edRetractDetail(abs.edDirs, run.Reparsed)
+			}
+			return "c08-directives:" + name, "predicted " + want[i] + " reparsed " + got[i]
 		}
 	}
 	// untouched lines survive with tokens + Before + Suffix comments
@@ -176,10 +189,12 @@ func edCheckC08(work bool, file string, ops []edOp) (sig, info string) {
 		if !edEqStrs(re[k].Tokens, orig.Tokens) {
 			return "c08-untouched-line-tokens", strings.Join(orig.Tokens, " ") + " became " + strings.Join(re[k].Tokens, " ")
 		}
-		if !edSubseq(orig.Before, re[k].Before) {
+		// comments are compared on the in-memory tree (a re-parse may attach a comment that is followed by
+		// a blank line to a separate comment block), and must also be present in the formatted text
+		if !edSubseq(orig.Before, fin[k].Before) || !edInText(orig.Before, run.Formatted) {
 			return "c08-untouched-line-before-comments", strings.Join(orig.Tokens, " ")
 		}
-		if !edSubseq(orig.Suffix, re[k].Suffix) {
+		if !edSubseq(orig.Suffix, fin[k].Suffix) || !edInText(orig.Suffix, run.Formatted) {
 			return "c08-untouched-line-suffix-comments", strings.Join(orig.Tokens, " ")
 		}
 	}
@@ -208,11 +223,16 @@ func edShrinkFile(work bool, file string, ops []edOp, sig string, chk func(bool,
 	changed := true
 	for changed {
 		changed = false
-		for i := len(lines) - 1; i >= 0; i-- {
-			cand := append(append([]string{}, lines[:i]...), lines[i+1:]...)
-			if s, _ := chk(work, strings.Join(cand, ""), ops); s == sig {
-				lines = cand
-				changed = true
+		for _, w := range []int{3, 2, 1} {
+			for i := len(lines) - w; i >= 0; i-- {
+				if i+w > len(lines) {
+					continue
+				}
+				cand := append(append([]string{}, lines[:i]...), lines[i+w:]...)
+				if s, _ := chk(work, strings.Join(cand, ""), ops); s == sig {
+					lines = cand
+					changed = true
+				}
 			}
 		}
 	}
